@@ -322,3 +322,71 @@ def check_examples(names, what, T=30):
             if dev > 1e-2:       # the gap is second order in the shock size (measured: 4e-3 for the HANK example at this size)
                 viol.append(dict(what='for a small shock the nonlinear path of a shipped example model is far from the linear impulse', input=inp, observed=float(dev), signature=dict(op='example-nl-vs-lin', model=nm)))
     return viol, n
+
+
+# ---- variables measured in very small units: genuine coefficients of order 1e-11 must survive every sum of paths ---------------------
+SMALL_SRC = '''from sequence_jacobian import simple
+
+@simple
+def su_tax(x, unit):
+    tax_a = unit * x
+    tax_b = unit * x + unit * x(-1)
+    return tax_a, tax_b
+
+@simple
+def su_rev(tax_a, tax_b):
+    revenue = tax_a + tax_b
+    return revenue
+
+@simple
+def su_share(revenue, unit):
+    share = revenue / unit
+    return share
+'''
+
+
+def check_small_units():
+    """x -> (tax_a, tax_b) -> revenue -> share with taxes measured in units of 2e-11: d share / d x = 2 on the diagonal and 1 on the first subdiagonal, whatever the listing order;
+    also sums of sparse operators with coefficients of that order directly"""
+    from sequence_jacobian import combine
+    from sequence_jacobian.classes.sparse_jacobians import SimpleSparse
+    import itertools
+    d = os.path.join(C.WORK, 'models')
+    os.makedirs(d, exist_ok=True)
+    with open(os.path.join(d, 'verif_small_units.py'), 'w') as f:
+        f.write(SMALL_SRC)
+    if d not in sys.path:
+        sys.path.insert(0, d)
+    importlib.invalidate_caches()
+    sys.modules.pop('verif_small_units', None)
+    sm = importlib.import_module('verif_small_units')
+    out, n, T = [], 0, 5
+    want = 2 * np.eye(T) + np.eye(T, k=-1)
+    for unit in (2e-11, 3e-12, 1.0):
+        for perm in itertools.permutations([sm.su_tax, sm.su_rev, sm.su_share]):
+            n += 1
+            model = combine(list(perm), name='small_units')
+            ss = model.steady_state({'x': 1.0, 'unit': unit})
+            J = model.jacobian(ss, ['x'], ['share', 'revenue'], T=T)
+            e = J.nesteddict.get('share', {}).get('x')
+            got = np.zeros((T, T)) if e is None else dense(e, T)
+            r = J.nesteddict.get('revenue', {}).get('x')
+            gotr = np.zeros((T, T)) if r is None else dense(r, T)
+            if np.abs(got - want).max() > 1e-9 or np.abs(gotr - unit * want).max() > 1e-9 * unit:
+                out.append(dict(what='model Jacobian loses genuine coefficients of variables measured in small units (chain rule over several paths)',
+                                input=dict(kind='small-units', unit=unit, listing=[b.name for b in perm], blocks=['tax_a = unit * x; tax_b = unit * x + unit * x(-1)', 'revenue = tax_a + tax_b', 'share = revenue / unit']),
+                                observed=dict(share=got[:2, :2].tolist(), revenue=gotr[:2, :2].tolist()), expected=dict(share=want[:2, :2].tolist()), signature=dict(op='small-units', where='model')))
+    for a, b in ((3e-11, 2e-11), (4e-12, -1e-12), (6e-14, 3e-14)):
+        for form in ('add', 'sub', 'radd-dense'):
+            n += 1
+            A, B = SimpleSparse({(0, 0): a, (1, 0): 1.0}), SimpleSparse({(0, 0): b, (-1, 1): 2.0})
+            if form == 'add':
+                got, ref = (A + B).matrix(T), A.matrix(T) + B.matrix(T)
+            elif form == 'sub':
+                got, ref = (A - SimpleSparse({(0, 0): -b, (-1, 1): 2.0})).matrix(T), A.matrix(T) - SimpleSparse({(0, 0): -b, (-1, 1): 2.0}).matrix(T)
+            else:
+                got, ref = (A + B.matrix(T)), A.matrix(T) + B.matrix(T)
+            if abs(got[0, 0] - ref[0, 0]) > 1e-9 * abs(ref[0, 0]) or np.abs(got - ref).max() > 1e-12:
+                out.append(dict(what='a sum of sparse operators loses a genuine small coefficient', input=dict(kind='small-units', form=form, coefficients=[a, b]), observed=float(got[0, 0]), expected=float(ref[0, 0]),
+                                signature=dict(op='small-units', where='sparse-' + form)))
+    return out, n
